@@ -481,17 +481,41 @@ func runWorker(exe, id string, shard int, work string, watchdog time.Duration, s
 	}
 }
 
+func timedOutOrKilled(oc workerOutcome) bool {
+	return oc.timedOut || (oc.err != nil && strings.Contains(oc.err.Error(), "killed"))
+}
+
+// deathInCodeUnderTest: a worker death that cannot be tied to one case is a
+// verdict only when the dying process's own report shows the runtime giving up
+// inside the code under test - a panic or fatal error whose stack runs through
+// go-gts/gts; anything else stays inconclusive.
+func deathInCodeUnderTest(oc workerOutcome, shard int, seq int64, caseEnc string) *fw.Violation {
+	b, err := os.ReadFile(oc.stderr)
+	if err != nil || timedOutOrKilled(oc) {
+		return nil
+	}
+	txt := string(b)
+	if !(strings.Contains(txt, "panic:") || strings.Contains(txt, "fatal error:")) || !strings.Contains(txt, "github.com/go-gts/gts") {
+		return nil
+	}
+	if len(txt) > 6000 {
+		txt = txt[:6000]
+	}
+	return &fw.Violation{Class: "process-death-in-the-code-under-test", Shard: shard, Seq: seq, Case: caseEnc,
+		Expected: "the process survives the workload", Observed: fmt.Sprintf("worker died: %v", oc.err), Stack: txt, Count: 1}
+}
+
 // triageDeath re-runs the case named by the dead worker's write-ahead log
 // alone, under a CPU limit. Only a reproduced death is a violation.
 func triageDeath(exe, id string, shard int, work string, oc workerOutcome) *fw.Violation {
 	wb, err := os.ReadFile(filepath.Join(work, fmt.Sprintf("wal-%d.log", shard)))
 	if err != nil || len(wb) == 0 {
-		return nil
+		return deathInCodeUnderTest(oc, shard, -1, "(before the first case of this worker)")
 	}
 	parts := bytes.SplitN(wb, []byte{'\n'}, 2)
 	seq, err := strconv.ParseInt(string(parts[0]), 10, 64)
 	if err != nil {
-		return nil
+		return deathInCodeUnderTest(oc, shard, -1, "(case unknown)")
 	}
 	caseEnc := ""
 	if len(parts) > 1 {
@@ -511,7 +535,9 @@ func triageDeath(exe, id string, shard int, work string, oc workerOutcome) *fw.V
 				}
 			}
 		}
-		return nil
+		// Not reproduced by the case alone: a death that depends on the history
+		// of the process (a finalizer, state carried from earlier calls).
+		return deathInCodeUnderTest(oc, shard, seq, caseEnc+"  (last case begun; the death did not recur when this case ran alone: it depends on what the process did before)")
 	}
 	tail := ""
 	if b, err := os.ReadFile(oc2.stderr); err == nil {
